@@ -32,6 +32,8 @@ def r03_1(ctx: Ctx) -> None:
         ctx.instance("R03.1", res.where(), f"ledger: {emit} (guard `{guards[0][:70] if guards else '?'}`) <-> reservation term on document.{comp}.text: {term}")
         if not term:
             ctx.violation("R03.1", res.short, f"no reservation for {comp}", res.where(), f"the {comp} row rendered on a page is not reserved in the per-page row budget")
+        elif not guards:
+            ctx.gap("R03.1", f"the call of {emit} could not be re-identified in PageRenderer.render")
         elif not implied:
             ctx.violation("R03.1", rend.short, f"{emit} guard wider than reservation", rend.where(), f"{emit} can be rendered when nothing was reserved for it")
     term = "if document.rtf_body.subline_by:" in tr
@@ -187,8 +189,8 @@ def check(ctx: Ctx) -> None:
     ctx.undecided("that the estimated line count is >= the true wrapped line count; per-page sums for concrete frames")
     r03_1(ctx)
     from .c04 import r04_1, r04_2, r04_3_4, r04_6
-    r04_1(ctx)
-    r04_2(ctx)
-    r04_3_4(ctx)      # heading rows are budgeted at rows flagged as group starts
+    r04_1(ctx, mode="budget")      # only the over-filling direction concerns the row budget
+    r04_2(ctx, only={"df", "col_widths", "table_attrs", "removed_column_indices", "additional_rows_per_page", "page_by", "subline_by"})
+    r04_3_4(ctx, lookahead=False)   # heading rows are budgeted at rows flagged as group starts
     r04_6(ctx)
     r03_3_6(ctx)
